@@ -382,7 +382,11 @@ def build_permuted(n, seed, top=True):
         thorough=100000,
         rule='hashable-leaf nested dicts built in two insertion orders: == and '
         'equal hash; pickle and flatten/unflatten give equal values; flatten '
-        'order sorted by key; a one-leaf change breaks equality; non-trivial = '
+        'order sorted by key; a one-leaf change breaks equality; eleven '
+        'derived constructions (FrozenDict(fd), FrozenDict(base, **extra), '
+        'freeze(fd), copy with additions, pop of an extra key, ...) from '
+        'sources hashed or not hashed beforehand are == and hash-equal to the '
+        'direct construction; non-trivial = '
         '>=2 keys at some level and depth>=2')
 def frozendict_value_laws(case, ctx):
   n, seed = case
@@ -436,6 +440,49 @@ def frozendict_value_laws(case, ctx):
     f3 = freeze(change_first(unfreeze(f1)))
     with sut('eq'):
       require(f3 != f1, 'different contents compare equal')
+  # every documented way of deriving a FrozenDict with the same contents,
+  # from sources whose hash was or was not computed before, compares and
+  # hashes equal to the directly built one
+  keys = sorted(d1.keys())
+  cut = seed % (len(keys) + 1)
+  base = {k: d1[k] for k in keys[:cut]}
+  extra = {k: d1[k] for k in keys[cut:]}
+  ident = all(isinstance(k, str) and k.isidentifier() for k in extra)
+  for prehash in (False, True):
+    with sut('derived constructions'):
+      bfd = freeze(base)
+      whole = freeze(d2)
+      if prehash:
+        hash(bfd), hash(whole)
+      derived = {
+          'FrozenDict(fd)': FrozenDict(whole),
+          'freeze(fd)': freeze(whole),
+          'fd.copy({})': whole.copy({}),
+          'base.copy(extra)': bfd.copy(extra),
+          'core.copy(base, extra)': fcore.copy(bfd, extra),
+          'FrozenDict({**base, **extra})': FrozenDict({**bfd, **extra}),
+      }
+      if ident:
+        derived['FrozenDict(base_fd, **extra)'] = FrozenDict(bfd, **extra)
+        derived['FrozenDict(base_dict, **extra)'] = FrozenDict(base, **extra)
+        derived['FrozenDict(**contents)'] = (
+            FrozenDict(**d1) if all(isinstance(k, str) and k.isidentifier()
+                                    for k in d1) else f1)
+      if keys:
+        more = freeze({**d1, '__extra__': 1})
+        if prehash:
+          hash(more)
+        derived['pop(extra key)'] = more.pop('__extra__')[0]
+        derived['core.pop(extra key)'] = fcore.pop(more, '__extra__')[0]
+      for how, g in derived.items():
+        require(isinstance(g, FrozenDict), lambda: f'{how} is {type(g)}')
+        require(g == f1, lambda: f'{how} != FrozenDict built directly from '
+                f'the same contents (source hashed before: {prehash})')
+        require(hash(g) == hash(f1), lambda: f'{how} == the directly built '
+                f'FrozenDict but hashes differently (source hashed before: '
+                f'{prehash})')
+        require(g in {f1: 1} and f1 in {g: 1}, lambda: f'{how}: dict lookup '
+                'misses an equal key')
   def depth(x):
     return 1 + max([depth(v) for _, v in x['d']] + [0]) if 'd' in x else 0
   def wide(x):
